@@ -41,13 +41,16 @@ def plan(tier, seed):
     return [dict(case=int(rng.integers(0, 2**31)), family=fams[i % len(fams)]) for i in range(BUDGET[tier]["cases"])]
 
 
-def _all_ops():
+def _all_ops(shared_labels=False):
     from pymablock.number_ordered_form import LadderOp
 
     a, b = BosonOp("a"), BosonOp("b")
     lad = LadderOp("l")
     s = pauli.SigmaMinus("s")
     c1, c2, c3 = FermionOp("c1"), FermionOp("c2"), FermionOp("c3")
+    if shared_labels:
+        # modes of different type that carry the same label are independent operators
+        lad, s, c1, c2 = LadderOp("b"), pauli.SigmaMinus("a"), FermionOp("a"), FermionOp("b")
     return dict(a=a, b=b, l=lad, s=s, c1=c1, c2=c2, c3=c3)
 
 
@@ -73,7 +76,11 @@ def _rand_factor(rng, ops):
         p = int(rng.integers(2, 4))
         return o**p, p
     n = NumberOperator(ops[int(rng.integers(len(ops)))])
-    k = int(rng.integers(4))
+    k = int(rng.integers(6))
+    if k == 4:
+        return sympy.Abs(n), 0  # sign-sensitive functions: a ladder mode's number operator also takes negative values
+    if k == 5:
+        return sympy.sqrt(n**2), 0
     if k == 0:
         return n, 0
     if k == 1:
@@ -134,7 +141,9 @@ def run_case(spec):
 
     rng = rng_for(8, spec["case"])
     counters = Counter()
-    O = _all_ops()
+    shared_labels = bool(rng.random() < 0.15)
+    counters["shared_labels"] += int(shared_labels)
+    O = _all_ops(shared_labels)
     ops, exprs = _family_operands(rng, spec["family"], O)
     ops = sorted(set(ops), key=lambda op: (generator_types.index(type(op)), str(op.name)))
     (e1, d1), (e2, d2), (e3, d3) = exprs
